@@ -18,6 +18,7 @@ pub struct C20 {
     igs_mixed_len: u32,
     n_rip_viewport: u64,
     n_igs_blit: u64,
+    n_rip_selector: u64,
 }
 
 /// (level prefix, command letter)
@@ -399,8 +400,40 @@ impl C20 {
             (self.rip_viewport_case(k - self.n_rip_uniform - self.n_rip_mixed - self.n_igs_table - self.n_rip_pairs - self.n_igs_mixed), "rip-viewport")
         } else if k < self.n_rip_uniform + self.n_rip_mixed + self.n_igs_table + self.n_rip_pairs + self.n_igs_mixed + self.n_rip_viewport + self.n_igs_blit {
             (self.igs_blit_case(k - self.n_rip_uniform - self.n_rip_mixed - self.n_igs_table - self.n_rip_pairs - self.n_igs_mixed - self.n_rip_viewport), "igs-blit")
+        } else if k < self.n_rip_uniform + self.n_rip_mixed + self.n_igs_table + self.n_rip_pairs + self.n_igs_mixed + self.n_rip_viewport + self.n_igs_blit + self.n_rip_selector {
+            (self.rip_selector_case(k - self.n_rip_uniform - self.n_rip_mixed - self.n_igs_table - self.n_rip_pairs - self.n_igs_mixed - self.n_rip_viewport - self.n_igs_blit), "rip-selector")
         } else {
             (self.random_case(ctx, k), "random")
+        }
+    }
+
+    fn rip_selector_case(&self, k: u64) -> StreamCase {
+        // the small selector values of the RIP state commands (font number / direction / size, fill pattern, line style and
+        // thickness, write mode, button style flags, clipboard modes ...): the digit classes {0,1,Z} of the other
+        // enumerations only produce 0, 1, 35, 36, 37 ... in a two-digit field. Every command, every one of its first eight
+        // two-digit fields in turn at each value 0..=15 (all other fields 01), followed by a probe that writes text, draws
+        // and fills with whatever state the command left
+        let mut r = k;
+        let v = r % 16;
+        r /= 16;
+        let field = (r % 8) as usize;
+        r /= 8;
+        let (lvl, c) = RIP_CMDS[(r % RIP_CMDS.len() as u64) as usize];
+        let mut params = String::new();
+        for f in 0..12 {
+            params.push_str(&if f == field { b36(v as i64, 2) } else { "01".to_string() });
+        }
+        let mut bytes = b"!".to_vec();
+        rip_cmd(&mut bytes, lvl, c, params.as_bytes());
+        bytes.extend_from_slice(b"|@1010text at a position|Thello|L00001010|B05050F0F|C1E1E0A|O1E1E005A0A|F0202|1U0A0A28140000label|X0101|l03010105050901\n");
+        StreamCase {
+            emu: "rip".into(),
+            music: 0,
+            w: 80,
+            h: 43,
+            alloc: true,
+            prefix: vec![],
+            bytes,
         }
     }
 
@@ -654,7 +687,7 @@ impl Prop for C20 {
         "C20"
     }
     fn rule(&self) -> &'static str {
-        "streams are fed character by character to the real RIPscrip (640x350 BGI canvas, file commands pointed at an empty scratch directory) and IGS (DrawExecutor) emulations under the panic monitor, the pixel work counter (budget 8*(n+2)*canvas), the virtual blocking monitor (any sleep > 0 ms raises) and, after every command terminator, an assertion that get_picture_data() returns width*height*4 bytes; pending IGS loop steps are drained through get_next_action. cases: (rip-uniform) every RIP level-0/1/9 command x parameter length 0..=24 x {all-0, all-1, all-Z} x 2 terminators; (rip-mixed) every command x every string over {0,1,Z} up to length 6; (igs-table) every IGS command x 0..=12 parameters x 7 value classes incl. negative and 2^31-1; (rip-pairs) every ordered pair of RIP commands, each with 24 parameter characters of one class {0,1,Z}: state command then drawing command; (igs-mixed) every IGS command x every parameter vector of length 0..=4 (thorough 5) over {0,1,2,3,40,9999}, of the next five lengths over {0,9999} and of length 1..=3 over the selector values {0..8,10,16,18} (text effects / sizes / rotations, marker and line types, patterns, resolutions), followed by a drawing probe (line, box, marker, text; after vectors of length <= 3 also circle, ellipse, arcs, pie slices, rounded / filled rectangle, poly line / fill, flood fill and line-to, in-canvas and far out of canvas, so that border / hollow / mode / colour state set by the first command is used); (rip-viewport) every RIP command with four patterns of in-range coordinates (inside, centre + radii / angles, edges and beyond, absolute screen coordinates) on six viewports (full, offset from the top, offset from the left, a middle window, the bottom-right quarter, tiny), fill style and colour set, followed by a flood fill from inside the viewport; (igs-blit) GrabScreen with its exact parameter counts for all four kinds x 16 write modes x 7 rectangle patterns x 3 resolutions; (random) seeded mixed/over-long/truncated parameter lists, continuation lines, text variables, loops with delays, chained commands on a random state prefix. distinct_nontrivial = distinct (emulation, stream head, result kinds, panicked, picture observed) fingerprints"
+        "streams are fed character by character to the real RIPscrip (640x350 BGI canvas, file commands pointed at an empty scratch directory) and IGS (DrawExecutor) emulations under the panic monitor, the pixel work counter (budget 8*(n+2)*canvas), the virtual blocking monitor (any sleep > 0 ms raises) and, after every command terminator, an assertion that get_picture_data() returns width*height*4 bytes; pending IGS loop steps are drained through get_next_action. cases: (rip-uniform) every RIP level-0/1/9 command x parameter length 0..=24 x {all-0, all-1, all-Z} x 2 terminators; (rip-mixed) every command x every string over {0,1,Z} up to length 6; (igs-table) every IGS command x 0..=12 parameters x 7 value classes incl. negative and 2^31-1; (rip-pairs) every ordered pair of RIP commands, each with 24 parameter characters of one class {0,1,Z}: state command then drawing command; (igs-mixed) every IGS command x every parameter vector of length 0..=4 (thorough 5) over {0,1,2,3,40,9999}, of the next five lengths over {0,9999} and of length 1..=3 over the selector values {0..8,10,16,18} (text effects / sizes / rotations, marker and line types, patterns, resolutions), followed by a drawing probe (line, box, marker, text; after vectors of length <= 3 also circle, ellipse, arcs, pie slices, rounded / filled rectangle, poly line / fill, flood fill and line-to, in-canvas and far out of canvas, so that border / hollow / mode / colour state set by the first command is used); (rip-viewport) every RIP command with four patterns of in-range coordinates (inside, centre + radii / angles, edges and beyond, absolute screen coordinates) on six viewports (full, offset from the top, offset from the left, a middle window, the bottom-right quarter, tiny), fill style and colour set, followed by a flood fill from inside the viewport; (rip-selector) every RIP command with each of its first eight two-digit fields in turn at each value 0..=15, followed by a text / line / bar / circle / fill / button probe; (igs-blit) GrabScreen with its exact parameter counts for all four kinds x 16 write modes x 7 rectangle patterns x 3 resolutions; (random) seeded mixed/over-long/truncated parameter lists, continuation lines, text variables, loops with delays, chained commands on a random state prefix. distinct_nontrivial = distinct (emulation, stream head, result kinds, panicked, picture observed) fingerprints"
     }
     fn meta(&self, _ctx: &Ctx) -> Value {
         json!({"floor_evaluations": 5000, "floor_distinct": 300, "watchdog_s": 60, "watchdog_is_violation": true, "plain_pass": "quick",
@@ -671,7 +704,8 @@ impl Prop for C20 {
         self.n_igs_mixed = ((0..=l).map(|i| 6u64.pow(i)).sum::<u64>() + (l + 1..=l + 5).map(|i| 2u64.pow(i)).sum::<u64>() + (1..=3u32).map(|i| 12u64.pow(i)).sum::<u64>()) * IGS_CMDS.len() as u64;
         self.n_rip_viewport = 4 * 6 * RIP_CMDS.len() as u64;
         self.n_igs_blit = 7 * 16 * 4 * 3;
-        self.n_rip_uniform + self.n_rip_mixed + self.n_igs_table + self.n_rip_pairs + self.n_igs_mixed + self.n_rip_viewport + self.n_igs_blit + ctx.tier.pick(30_000, 1_500_000)
+        self.n_rip_selector = 16 * 8 * RIP_CMDS.len() as u64;
+        self.n_rip_uniform + self.n_rip_mixed + self.n_igs_table + self.n_rip_pairs + self.n_igs_mixed + self.n_rip_viewport + self.n_igs_blit + self.n_rip_selector + ctx.tier.pick(30_000, 1_500_000)
     }
     fn run_case(&mut self, ctx: &mut Ctx, k: u64) {
         let (case, class) = self.case_for(ctx, k);
